@@ -469,6 +469,9 @@ func rsDirected(idx int) []rsOp {
 	case 1: // LoadOffset fails: nothing whose position was saved may be delivered again
 		return []rsOp{c(rsOp{kind: 0, ty: 0, val: 1}), c(rsOp{kind: 0, ty: 0, val: 2}), c(rsOp{kind: 1, id: 0}), c(rsOp{kind: 2}),
 			{kind: 1, id: 0, budget: -1, failat: 0}, c(rsOp{kind: 2}), c(rsOp{kind: 1, id: 0}), c(rsOp{kind: 1, id: 1}), c(rsOp{kind: 1, id: 2})}
+	case 10: // (family resubinner) the replay handler publishes an event of its own type: the Coq witness h_inner
+		return []rsOp{c(rsOp{kind: 0, ty: 0, val: 1}), c(rsOp{kind: 1, id: 0, inner: [][3]int{{0, 0, 2}}}), c(rsOp{kind: 0, ty: 0, val: 3}),
+			c(rsOp{kind: 2}), c(rsOp{kind: 1, id: 0}), c(rsOp{kind: 1, id: 1}), c(rsOp{kind: 1, id: 2})}
 	case 2: // the process dies between the handler and the save, in the replay and in the live phase
 		return []rsOp{c(rsOp{kind: 0, ty: 0, val: 1}), c(rsOp{kind: 0, ty: 0, val: 2}), {kind: 1, id: 0, budget: 4, failat: -1}, c(rsOp{kind: 2}),
 			c(rsOp{kind: 1, id: 0}), {kind: 0, ty: 0, val: 3, budget: 2, failat: -1}, c(rsOp{kind: 2}), c(rsOp{kind: 1, id: 0}),
@@ -483,7 +486,9 @@ func runResub(kind string, withInner bool, directed int) func(rng *rand.Rand, id
 			rng.Int63()
 		}
 		var ops []rsOp
-		if idx < directed {
+		if withInner && idx == 0 {
+			ops = rsDirected(10)
+		} else if idx < directed {
 			ops = rsDirected(idx)
 		} else {
 			ops = genResub(rng, tier, withInner)
